@@ -210,10 +210,12 @@ func Run(t *testing.T, cfg Config, body func(s *Sched), final func(s *Sched)) (r
 		cur.Store(s)
 		s.spawn("main", true, func() { body(s) })
 		s.loop()
+		s.checkStuck()
 		if s.verdict == nil && final != nil {
 			s.finalRan = true
 			s.spawn("final", true, func() { final(s) })
 			s.loop()
+			s.checkStuck()
 		}
 		s.teardown()
 	})
@@ -241,6 +243,36 @@ func (s *Sched) fill(res *Result) {
 			res.Leaked = append(res.Leaked, t.String()+":"+t.state.String()+"@"+t.point)
 		}
 	}
+}
+
+// checkStuck turns "the run ended but harness tasks never finished" into a
+// deadlock verdict carrying the wait-for information.
+func (s *Sched) checkStuck() {
+	if s.verdict != nil || !s.WorkloadPending() {
+		return
+	}
+	stuck := s.Stuck(false)
+	site := "?"
+	s.mu.Lock()
+	for _, t := range s.tasks {
+		if t.state == stExited || !t.Workload {
+			continue
+		}
+		if t.state == stWaitMutex && t.waitM != nil {
+			site = t.waitM.site
+			break
+		}
+	}
+	s.mu.Unlock()
+	if site == "?" {
+		for _, d := range stuck {
+			if i := strings.Index(d, " at "); i >= 0 {
+				site = d[i+4:]
+				break
+			}
+		}
+	}
+	s.failLocked(&Verdict{Oracle: "deadlock", Site: site, Detail: "no task can run and no timer is pending, but operations have not completed: " + strings.Join(stuck, "; ")})
 }
 
 // ---- task creation
